@@ -15,7 +15,7 @@ from ..effects import callee
 from .. import preds, sym, spec
 from ..preds import Scope, canon
 from ..sym import Interp, Unsupported, Vec, SmallMat, Struct
-from .common import facts_for, optimizer_classes, optimizer_spline_order, strip_copy, SPLINES, full_classes
+from .common import facts_for, optimizer_classes, optimizer_spline_order, strip_copy, SPLINES, full_classes, is_void_waypoints_cost
 
 GNAMES = ["gp", "gv", "ga", "gj", "gs"]
 
@@ -59,6 +59,59 @@ def find_loops(info):
     Lcost = next((L for L in I.loops if L is not Lseg and any(e.target == "$" + cost for e in L.effects)), None)
     Lsuffix = next((L for L in I.loops if L.step == -1), None)
     return Lseg, Lk, Lstart, Lcost, Lsuffix
+
+
+def start_times_content(I, tgt, ws, n):
+    """Content of the segment start-time array before the quadrature: start[k] = start time + T_0 + ... + T_{k-1} for every
+    k in [0, N), however it is computed (a running local, a recurrence on the previous element, point writes).  Claimed
+    closed form C(k) = start + PS(k) with PS(0) = 0, PS(k) = PS(k-1) + T[k-1]; every piece is checked against it by
+    induction over the index.  Returns (ok, description); an array filled in a way that is not understood is broken."""
+    from . import c01
+    kk = sp.Symbol("k_", integer=True, nonnegative=True)
+    start = sp.Symbol("start_time_", real=True)
+    PS = sp.Function("PS")
+    Tb = sp.IndexedBase(ws + ".cache_times", real=True)
+    # a running local (t = start; loop { ...; t += T[i]; }) holds start + PS(i) at the start of iteration i
+    for L in I.loops:
+        for nm, (symc, init) in list(L.carried.items()):
+            upd = [e for e in L.effects if e.target == "$" + nm]
+            if len(upd) == 1 and upd[0].delta is not None and isinstance(init, sp.Basic) and L.lo == 0 and L.step == 1 and sym.is_zero(sp.sympify(upd[0].delta) - Tb[L.var]):
+                for e in L.effects:
+                    if e.target == tgt and e.op == "=" and isinstance(e.value, sp.Basic) and symc in e.value.free_symbols:
+                        e.value = e.value.xreplace({symc: init + PS(L.var)})
+    pieces, shape_ok = c01.content_pieces(I, tgt, kk, presized=True)
+    if not shape_ok or not pieces:
+        raise Broken("the segment start times are filled in a way this rule does not understand")
+    is_self = lambda a: str(a.base).split("#")[0] == tgt
+
+    def closed(v, at):
+        """v with the array's own elements replaced by the claimed closed form, and every PS(.) expressed through PS(at - 1)"""
+        v = sp.sympify(v)
+        v = v.xreplace({a: start + PS(a.indices[0]) for a in v.atoms(sp.Indexed) if is_self(a)})
+        rep = {}
+        for t_ in v.atoms(PS):
+            x = sp.expand(t_.args[0])
+            if x.is_Integer:
+                rep[t_] = sum((Tb[j] for j in range(int(x))), sp.Integer(0))
+                continue
+            d = sp.expand(x - (at - 1))
+            if d.is_Integer and d >= 0:
+                rep[t_] = PS(at - 1) + sum((Tb[sp.expand(at - 1 + j)] for j in range(int(d))), sp.Integer(0))
+        return sp.expand(v.xreplace(rep))
+    ok = c01.tiles(pieces, 0, n, n)
+    det = []
+    for lo, hi, val in pieces:
+        det.append("start[%s..%s) = %s" % (lo, hi, sp.sstr(val)))
+        if sym.is_zero(hi - lo - 1) and sp.expand(lo).is_Integer:
+            at = sp.expand(lo)
+            ok = ok and sym.is_zero(closed(sp.sympify(val).subs(kk, at), at + 1) - closed(start + PS(at), at + 1))
+        else:
+            # a run of indices: k >= lo; for k = 0 the claim is start itself
+            res = closed(val, kk) - closed(start + PS(kk), kk)
+            ok = ok and sym.is_zero(res)
+            if sym.is_zero(lo):
+                ok = ok and sym.is_zero(sp.expand(sp.sympify(val).subs(kk, 0).xreplace({PS(sp.Integer(0)): sp.Integer(0)})) - start)
+    return bool(ok), "; ".join(det)
 
 
 def run(chk):
@@ -140,16 +193,11 @@ def run(chk):
             okg = False
             det = str(tg)
             st_atoms = [a for a in sp.sympify(tg).atoms(sp.Indexed) if str(a.base).split("#")[0].endswith("segment_start_times")]
-            if len(st_atoms) == 1 and Lstart is not None:
+            if len(st_atoms) == 1:
                 okg = sym.is_zero(tg - st_atoms[0] - tloc) and sym.is_zero(st_atoms[0].indices[0] - i)
-                iv = Lstart.var
-                se = [e for e in Lstart.effects if e.target.endswith("segment_start_times")]
-                rt = Lstart.carried.get("running_time") or next(iter(Lstart.carried.values()), None)
-                inc = [e for e in Lstart.effects if e.target.startswith("$") and e.op == "+="]
-                Tst = sp.Indexed(sp.IndexedBase(ws + ".cache_times", real=True), iv)
-                okg = (okg and len(se) == 1 and sym.is_zero(se[0].key[0] - iv) and rt is not None and sym.is_zero(se[0].value - rt[0]) and rt[1] == sp.Symbol("start_time_", real=True)
-                       and len(inc) == 1 and sym.is_zero(inc[0].delta - Tst) and Lstart.lo == 0 and sym.is_zero(Lstart.hi - n))
-                det += " ; start[i] = running (init %s), running += %s" % (rt[1] if rt else None, inc[0].delta if inc else None)
+                okc, detc = start_times_content(I, str(st_atoms[0].base).split("#")[0], ws, n)
+                okg = okg and okc
+                det += " ; " + detc
             chk.ob("C08-R2", "%s%s global time = (start time + durations of the earlier segments) + local time" % (cls, inst), okg, where, det, construct="%s/sample%s/t_global" % (cls, inst))
             chk.ob("C08-R2", "%s%s segment index argument is the segment being integrated" % (cls, inst), sample[2] == i, where, str(sample[2]), construct="%s/sample%s/index" % (cls, inst))
             coef_names = {a[0] for v in sample[3:8] if isinstance(v, Vec) for a in v.t}
@@ -251,6 +299,6 @@ def check_forward(chk, F, cls, f):
         ok = c.get("k") == "call" and callee(c).get("fid") in prim
         if ok:
             a = [canon(x, sc) for x in c["args"]]
-            ok = a[0] == "$p0" and a[1] == "$p1" and a[2] == "$p2" and "VoidWaypointsCost" in a[3] and a[4:] == ["$p3", "$p4", "$p5"]
+            ok = a[0] == "$p0" and a[1] == "$p1" and a[2] == "$p2" and is_void_waypoints_cost(F, c["args"][3]) and a[4:] == ["$p3", "$p4", "$p5"]
             det = str(a)
     chk.ob("C08-R5", "%s two-cost evaluate forwards x, grad, both functors, workspace and executor with a void waypoint cost" % cls, ok, loc(f), det, construct="%s/evaluate-forward%s" % (cls, f["full"].split("evaluate")[1][:40]))
